@@ -57,7 +57,7 @@ fn rt_of(v: &toml::Value) -> RVal {
 }
 
 /// a shape (and the value in it) that the document tree can be decoded into
-fn infer(rng: &mut Rng, v: &RVal, depth: usize) -> (Shape, Dyn) {
+pub fn infer(rng: &mut Rng, v: &RVal, depth: usize) -> (Shape, Dyn) {
     match v {
         RVal::Str(s) => {
             let mut it = s.chars();
